@@ -40,6 +40,7 @@
 From Coq Require Import ZArith Bool List.
 Import ListNotations.
 From Verif Require Import Model.Val Gen.Src_Task Gen.Src_TaskGraph.
+From Verif Require Model.Graph.      (* breadth_first of the job graph, for resolution at submission *)
 Open Scope Z_scope.
 
 Record ttask := mkTT {
@@ -711,3 +712,90 @@ Definition c18_virtual_offer_check (x : tgraph * sched_opts * list Z) : bool :=
                              (match ref_est (S (length (tg_nodes g))) g (so_time o) n with
                               | Some e => e <=? so_time o + so_lookahead o + tg_slowest g n
                               | None => false end)) (tg_nodes g).
+
+
+(* ====================== resolution of the conditionals at submission ======================
+   JobGraph._generate_task_graph with resolve_conditionals_at_submission (workload/jobs.py:839-861), over the
+   JOB graph (Model/Graph.v: of_mapping, children_of, breadth_first).  The submission-time generator
+   (FakeRandomNumberGenerator) is a round-robin counter, one per generated task graph.  `probs` maps every
+   job id to the numerator of its task's probability.  Err 8: ZeroDivisionError (conditional without children). *)
+Fixpoint zero_prefix (term : Z -> bool) (l : list Z) (probs : list (Z * Z)) : list (Z * Z) :=
+  match l with
+  | [] => probs
+  | n :: l' => if term n then probs else zero_prefix term l' (al_put n 0 probs)     (* `break` at the first terminal *)
+  end.
+Fixpoint resolve_children (jg : Graph.graph) (term : Z -> bool) (chosen : Z) (ks : list Z) (den : Z)
+                          (probs : list (Z * Z)) : result (list (Z * Z)) :=
+  match ks with
+  | [] => Ok probs
+  | c :: ks' =>
+      if c =? chosen then resolve_children jg term chosen ks' den (al_put c den probs)
+      else let '(l, st) := Graph.breadth_first jg (Some c) in
+           if st =? 0 then resolve_children jg term chosen ks' den (zero_prefix term l (al_put c 0 probs))
+           else Err st
+  end.
+Fixpoint resolve_loop (jg : Graph.graph) (term cond : Z -> bool) (ns : list Z) (counter den : Z)
+                      (probs : list (Z * Z)) : result (list (Z * Z)) :=
+  match ns with
+  | [] => Ok probs
+  | n :: ns' =>
+      if cond n then
+        let ks := Graph.children_of jg n in
+        let len := Z.of_nat (length ks) in
+        if len =? 0 then Err 8
+        else let idx := if len <=? counter then counter mod len else counter in
+             match nth_z ks idx with
+             | None => Err 5
+             | Some chosen =>
+                 bind (resolve_children jg term chosen ks den probs)
+                      (fun p => resolve_loop jg term cond ns' (idx + 1) den p)
+             end
+      else resolve_loop jg term cond ns' counter den probs
+  end.
+Definition resolve_at_submission (adj : list (Z * list Z)) (terminals conditionals : list Z) (den : Z)
+                                 (probs : list (Z * Z)) : result (list (Z * Z)) :=
+  bind (Graph.of_mapping adj) (fun jg =>
+    resolve_loop jg (fun n => zmem n terminals) (fun n => zmem n conditionals) (Graph.nodes jg) 0 den probs).
+
+Definition sub_observe (x : list (Z * list Z) * list Z * list Z * Z * list (Z * Z)) : val :=
+  let '(adj, terms, conds, den, probs) := x in
+  vres (fun p => L (map (fun kv => L [I (fst kv); I (snd kv)]) p)) (resolve_at_submission adj terms conds den probs).
+
+(* reference, independent of breadth_first: every conditional in declaration order, round-robin choice; the
+   chosen child gets 1, every other child and the interior of its branch (reachability through non-terminal
+   jobs, up to but excluding the joins) gets 0 *)
+Fixpoint interior_iter (k : nat) (adj : list (Z * list Z)) (term : Z -> bool) (s : list Z) : list Z :=
+  match k with
+  | O => s
+  | S k' =>
+      interior_iter k' adj term
+        (s ++ filter (fun c => negb (zmem c s) && negb (term c) &&
+                               existsb (fun pc => zmem (fst pc) s && zmem c (snd pc)) adj) (map fst adj))
+  end.
+Definition interior_of (adj : list (Z * list Z)) (term : Z -> bool) (u : Z) : list Z :=
+  if term u then [] else interior_iter (length adj) adj term [u].
+Fixpoint ref_resolve_loop (adj : list (Z * list Z)) (term cond : Z -> bool) (ns : list Z) (counter den : Z)
+                          (probs : list (Z * Z)) : list (Z * Z) :=
+  match ns with
+  | [] => probs
+  | n :: ns' =>
+      if cond n then
+        let ks := match al_get n adj with Some c => c | None => [] end in
+        let len := Z.of_nat (length ks) in
+        if len =? 0 then probs
+        else let idx := if len <=? counter then counter mod len else counter in
+             match nth_z ks idx with
+             | None => probs
+             | Some chosen =>
+                 let p1 := fold_left (fun p c => if c =? chosen then al_put c den p
+                                                 else fold_left (fun p' d => al_put d 0 p') (interior_of adj term c) (al_put c 0 p))
+                                     ks probs in
+                 ref_resolve_loop adj term cond ns' (idx + 1) den p1
+             end
+      else ref_resolve_loop adj term cond ns' counter den probs
+  end.
+(* observed: the canonical job graph (key order of Graph._graph, children lists), flags, probabilities before / after *)
+Definition sub_check (x : list (Z * list Z) * list Z * list Z * Z * list (Z * Z) * list (Z * Z)) : bool :=
+  let '(adj, terms, conds, den, before, after) := x in
+  let want := ref_resolve_loop adj (fun n => zmem n terms) (fun n => zmem n conds) (map fst adj) 0 den before in
+  forallb (fun n => match al_get n after, al_get n want with Some a, Some b => a =? b | _, _ => false end) (map fst adj).
